@@ -518,7 +518,8 @@ def c09_one(rec, case):
         sel = tuple(c['sel'])
         additional = {}
         for nm in c['additional']:
-            additional[nm] = dict((spec.names[i], float(100 * (ord(nm[0]) % 7) + i)) for i in range(n_models))
+            # (users give whatever numbers they have: Python ints for some models, floats for others)
+            additional[nm] = dict((spec.names[i], (100 * (ord(nm[0]) % 7) + i) if i % 2 == 0 else float(100 * (ord(nm[0]) % 7) + i) + 0.5) for i in range(n_models))
         forms = {'file': fx['out'], 'list': recs, 'object': recs[0]}
         inp = forms[c['form']]
         shown = recs if c['form'] != 'object' else recs[:1]
@@ -869,11 +870,15 @@ def c18_one(rec, case):
     for i, r in enumerate(recs):
         r.chi2 = np.sort(np.round(rng.uniform(0.5, 20., len(r.chi2)), 2) + 0.003)
         fl = flagsets[int(rng.integers(0, len(flagsets)))]
-        r.source = pkg.make_source('s%02d' % i, fl, [1., 2.], [.1, .2])
+        # (sources may share a name: the same object observed at two epochs, or unnamed sources)
+        r.source = pkg.make_source('s%02d' % (i // 2 if c.get('dup_names') else i), fl, [1., 2.], [.1, .2])
     crit, thr = c['crit'], c['thr']
     ok = True
     with pkg.scratch() as d:
-        fn = os.path.join(d, 'in.fitinfo')
+        relative = bool(c.get('relative')) and c['form'] == 'file' and not c['auto'] and not c.get('stale')
+        if relative:
+            os.makedirs(os.path.join(d, 'run1'))
+        fn = os.path.join(d, 'run1', 'in.fitinfo') if relative else os.path.join(d, 'in.fitinfo')
         f = FitInfoFile(fn, 'w')
         for r in recs:
             f.write(r)
@@ -887,6 +892,14 @@ def c18_one(rec, case):
         try:
             if c['auto'] and c['form'] == 'file':
                 filter_output(inp, **kw)
+            elif relative:
+                # the input named with a directory part, the outputs by bare relative names: they belong where the caller stands
+                here = os.getcwd()
+                try:
+                    os.chdir(d)
+                    filter_output(os.path.join('run1', 'in.fitinfo'), output_good='G', output_bad='B', **kw)
+                finally:
+                    os.chdir(here)
             else:
                 filter_output(inp, output_good=good_fn, output_bad=bad_fn, **kw)
         except Exception as e:
@@ -921,7 +934,7 @@ def run_c18(tier, seed):
     for t in range(n):
         case = dict(seed=seed, tag='c18', pseed=int(rng.integers(1, 10 ** 6)), k=int(rng.integers(1, 11)), with_fluxes=bool(t % 2), crit=('chi', 'cpd')[(t // 2) % 2],
                     thr=float(np.round(rng.uniform(0., 12.), 1) + 0.05) if t % 7 else float([1e9, -1.][t % 2]), form=('file', 'list')[(t // 4) % 2], auto=bool((t // 8) % 2),
-                    stale=[None, 'allgood', 'allbad'][t % 3])
+                    stale=[None, 'allgood', 'allbad'][t % 3], dup_names=bool(t % 5 == 2), relative=bool(t % 3 == 0))
         try:
             c18_one(rec, case)
         except Exception as e:
@@ -945,6 +958,8 @@ def c17_one(rec, case):
     rng = np.random.default_rng(c['pseed'])
     n_ap, n_f = c['n_ap'], c['n_f']
     spec = pkg.random_spec(rng, n_models=c['n_models'], n_ap=n_ap, n_wav=c['n_wav'], permute=False, wav_lo=0.3, wav_hi=300.)
+    if c.get('names_unsorted'):
+        spec.names = list(reversed(spec.names))        # the cube lists its models in non-alphabetical order
     widx = sorted(rng.choice(len(spec.wav), size=n_f, replace=False).tolist())
     if c['filter_order_desc']:
         widx = widx[::-1]
@@ -1029,7 +1044,7 @@ def run_c17(tier, seed):
         theta = sorted(rng.uniform(1., 6., n_f).tolist(), reverse=bool(t % 3 == 0))
         case = dict(seed=seed, tag='c17', pseed=int(rng.integers(1, 10 ** 6)), n_ap=n_ap, n_f=n_f, n_models=int(rng.integers(2, 7)), n_wav=int(rng.integers(8, 20)),
                     theta=theta, m=int(rng.integers(0, 6)), nsel=1 + t % 5, as_file=bool((t // 2) % 2), modes=['interp', 'largest', 'largest+smallest', 'all'],
-                    filter_order_desc=bool(t % 2 == 0), ext_unit='AA' if t % 4 == 3 else 'micron')
+                    filter_order_desc=bool(t % 2 == 0), ext_unit='AA' if t % 4 == 3 else 'micron', names_unsorted=bool(t % 3 == 1))
         try:
             c17_one(rec, case)
         except Exception as e:
